@@ -1679,7 +1679,7 @@ class t2data(object):
         t2data object, using the specified block mapping."""
         from copy import deepcopy
         self.grid.rocktypelist = deepcopy(source.grid.rocktypelist)
-        self.grid.rocktype = deepcopy(source.grid.rocktype)
+        self.grid.rocktype = dict([(rt.name, rt) for rt in self.grid.rocktypelist])
         for blk in self.grid.blocklist:
             if blk.name in mapping:
                 blk.rocktype = self.grid.rocktype[source.grid.block[mapping[blk.name]].rocktype.name]
